@@ -43,7 +43,7 @@ from zcsim.world import SimWorld
 ID = "C13"
 LEVEL = "exploration"
 HAS_CLOCK = False
-BUDGET = {"quick": (12000, 300), "thorough": (400000, 1500)}
+BUDGET = {"quick": (16000, 300), "thorough": (400000, 1500)}
 RULE = (
     "A case is one operation of a history of 1..8 operations against one "
     "schema object: load (text A with %import lines when component packages "
